@@ -39,7 +39,9 @@ use datafusion_common::{
 use datafusion_expr::window_state::{
     PartitionBatchState, WindowAggState, WindowFrameContext, WindowFrameStateGroups,
 };
-use datafusion_expr::{Accumulator, PartitionEvaluator, WindowFrame, WindowFrameBound};
+use datafusion_expr::{
+    Accumulator, PartitionEvaluator, WindowFrame, WindowFrameBound, WindowFrameUnits,
+};
 use datafusion_physical_expr_common::sort_expr::PhysicalSortExpr;
 
 use datafusion_physical_expr_common::utils::evaluate_expressions_to_arrays;
@@ -358,7 +360,12 @@ pub trait AggregateWindowExpr: WindowExpr {
                 window_frame_ctx.calculate_range(&order_bys, last_range, length, idx)?;
             // Exit if the range is non-causal and extends all the way:
             if cur_range.end == length
-                && !is_causal
+                && !(is_causal
+                    && !frame_end_follows_null_peers(
+                        self.get_window_frame(),
+                        &order_bys,
+                        idx,
+                    ))
                 && not_end
                 && !is_end_bound_safe(
                     window_frame_ctx,
@@ -406,6 +413,20 @@ pub(crate) fn filter_arrays(
     mask: &BooleanArray,
 ) -> Result<Vec<ArrayRef>> {
     arrays.iter().map(|arr| filter_array(arr, mask)).collect()
+}
+
+/// A RANGE frame that ends at `k PRECEDING` is flagged causal, which holds for
+/// non-NULL ORDER BY keys only: when the key of the current row is NULL, the
+/// frame ends at the end of the NULL peer group, which may contain rows that
+/// have not arrived yet. Returns true in that case.
+pub(crate) fn frame_end_follows_null_peers(
+    window_frame: &WindowFrame,
+    order_bys: &[ArrayRef],
+    idx: usize,
+) -> bool {
+    window_frame.units == WindowFrameUnits::Range
+        && matches!(window_frame.end_bound, WindowFrameBound::Preceding(_))
+        && order_bys.first().is_some_and(|col| col.is_null(idx))
 }
 
 /// Determines whether the end bound calculation for a window frame context is
@@ -508,7 +529,8 @@ fn is_end_bound_safe_for_range(
     match end_bound {
         WindowFrameBound::Preceding(value) => {
             let zero = ScalarValue::new_zero(&value.data_type())?;
-            if value.eq(&zero) {
+            // For a NULL key, `k PRECEDING` resolves to the end of the NULL peer group.
+            if value.eq(&zero) || orderby_col.is_null(idx) {
                 is_row_ahead(orderby_col, most_recent_ob_col, sort_options)
             } else {
                 Ok(true)
